@@ -7,7 +7,7 @@ root = os.path.dirname(here)
 props = [json.loads(l) for l in open(os.path.join(root, 'properties.jsonl'))]
 claims = json.load(open(os.path.join(here, 'claims.json')))
 log = subprocess.run(['git', '-C', '/repo', 'log', '--format=%H %s'], capture_output=True, text=True).stdout.splitlines()
-hooks = [l.split()[0] for l in log if ' verif hook' in l]
+hooks = [l.split()[0] for l in log if ' verif hook' in l or ' verif contracts' in l]
 m = {
  "version": 1,
  "setup_cmd": "./setup.sh",
